@@ -11,6 +11,8 @@ REPO=${VERIF_REPO:-/repo}
 # rebuild the analyser when its sources are newer than the binary (cheap; keeps bin/ honest)
 if [ -n "$(find sa -name '*.go' -newer bin/kmipsa -print -quit 2>/dev/null)" ]; then ./setup.sh >/dev/null || { echo "CHECKER-FAULT: setup failed" >&2; exit 2; }; fi
 mkdir -p evidence out
+# the package load runs the go command, which reads the build cache: never while a corpus script drops it
+exec 9>/tmp/kmipsa-gocache.lock; flock -s 9
 case "$MODE" in
   quick)    exec bin/kmipsa -repo "$REPO" -verif "$PWD" -prop "$ID" -tier quick -evidence "evidence/$ID.json" ;;
   thorough) ./mutants.sh "$ID" 8 || true
